@@ -9,7 +9,7 @@ import (
 // C10: a message is acted upon iff the Authorizer allowed it.
 
 type vAuthz struct {
-	decision  int // 0 allow, 1 deny, 2 fail
+	decision  int // 0 allow, 1 deny, 2 fail, 3 allow although something went wrong (true, err)
 	armed     bool
 	consulted int
 	sawMeta   bool
@@ -28,6 +28,8 @@ func (z *vAuthz) Authorize(s *wamp.Session, m wamp.Message) (bool, error) {
 		return false, nil
 	case 2:
 		return false, errors.New("authz backend down")
+	case 3:
+		return true, errors.New("policy cache stale, last known decision used")
 	}
 	return true, nil
 }
@@ -41,7 +43,8 @@ func vSnapshot(rl *realm) vTables {
 func Harness_C10_Authorizer() {
 	z := &vAuthz{}
 	localAuthz := vBool("RequireLocalAuthz")
-	rc := RealmConfig{URI: "realm1", AnonymousAuth: true, Authorizer: z, RequireLocalAuthz: localAuthz, AllowDisclose: true}
+	// authentication of local sessions and their authorization are independent settings
+	rc := RealmConfig{URI: "realm1", AnonymousAuth: true, Authorizer: z, RequireLocalAuthz: localAuthz, RequireLocalAuth: vBool("RequireLocalAuth"), AllowDisclose: true}
 	cfg := &Config{}
 	if vBool("realm-from-template") {
 		// the realm is created at the first attach from the router's template
@@ -72,7 +75,7 @@ func Harness_C10_Authorizer() {
 	a.drain()
 	b.drain()
 
-	z.decision = vChoice("decision", 3)
+	z.decision = vChoice("decision", 4)
 	z.armed = true
 	before := vSnapshot(rl)
 	kind := vChoice("kind", 10)
@@ -124,7 +127,7 @@ func Harness_C10_Authorizer() {
 	} else {
 		vAssert("consulted-once", z.consulted == 1)
 	}
-	if consultedExpected && z.decision != 0 {
+	if consultedExpected && (z.decision == 1 || z.decision == 2) {
 		// refused: no state change, nobody else notices, exactly one ERROR
 		vAssert("refused-changes-no-state", vSnapshot(rl) == before)
 		vAssert("refused-invisible-to-others", len(seen) == 0)
